@@ -127,6 +127,25 @@ func configs(thorough bool) []Config {
 	idx("iw(1);xir(1)|wtx", Script{iw(1), xir(1)}, Script{wtx()})   // the other sharer aborts by lock timeout on x
 	idx("iw(1);ir(1)|iwA(2)", Script{iw(1), ir(1)}, Script{iwA(2)}) // ... and another sharer's aborted indexed write
 	quickCombos = 0
+	// (2d) non-positive lock timeouts (0 and -1 ms): on the unchanged tree a try-lock (x, y, t order of the settings)
+	nonpos := func(name string, to []int, ctxs ...Script) {
+		out = append(out, Config{Name: fmt.Sprintf("nonpos:%s/to=%v", name, to), Ctxs: ctxs, NVars: usesVars(ctxs), TimeoutMs: to, Bound: -1,
+			Timeouts: 2, MaxAborts: 4, TryLock: true})
+	}
+	for _, to := range [][]int{{0, 0, 50}, {-1, -1, 50}, {0, -1, 50}, {0, 50, 50}} {
+		nonpos("xfer(x,y)|xfer(y,x)", to, Script{xfer(x, y)}, Script{xfer(y, x)}) // opposite acquisition orders
+	}
+	for _, to := range [][]int{{0, 0, 50}, {-1, -1, 50}} {
+		nonpos("inc(x);inc(y)|inc(y);inc(x)", to, Script{inc(x), inc(y)}, Script{inc(y), inc(x)})
+		nonpos("read2(x,y)|xfer(y,x)", to, Script{read2(x, y)}, Script{xfer(y, x)})
+	}
+	for _, to := range [][]int{{0, 50, 50}, {-1, 50, 50}} {
+		nonpos("inc(x)|inc(x)", to, Script{inc(x)}, Script{inc(x)}) // single-variable contention
+	}
+	for _, to := range [][]int{{0, 50, 0}, {-1, 50, -1}} {
+		nonpos("iw(1);xir(1)|wtx", to, Script{iw(1), xir(1)}, Script{wtx()}) // indexed; x and t taken in opposite orders
+		nonpos("iinc(1)|iinc(1)", to, Script{iinc(1)}, Script{iinc(1)})
+	}
 	// (2c) sharers wrapped in resources.MakePersistent (in-memory badger): commits go through Persistent.Commit's goroutine
 	persist := func(name string, ctxs ...Script) {
 		n := len(out)
@@ -181,7 +200,8 @@ type world struct {
 	ths  []*bubble.Thread
 	log  *bubble.Log
 
-	aborts atomic.Int32
+	aborts   atomic.Int32
+	abortsBy []atomic.Int32 // per context
 	db     *badger.DB
 }
 
@@ -199,6 +219,7 @@ func build(cfg Config, s *bubble.Sched) *world {
 		w.mgrs = append(w.mgrs, resources.NewLocalSharedManager(initialValue(v),
 			resources.WithLocalSharedResourceTimeout(time.Duration(to)*time.Millisecond)))
 	}
+	w.abortsBy = make([]atomic.Int32, len(cfg.Ctxs))
 	for i, script := range cfg.Ctxs {
 		i, script := i, script
 		name := fmt.Sprintf("A%d", i)
@@ -221,6 +242,7 @@ func build(cfg Config, s *bubble.Sched) *world {
 				w.log.Mark(name, "phase", ph)
 				if ph == "abort" {
 					w.aborts.Add(1)
+					w.abortsBy[i].Add(1)
 				}
 			}}
 			opts = append(opts, distsys.SetFairnessCounter(g))
@@ -315,6 +337,7 @@ func execute(t *testing.T, cfg Config, c bubble.Chooser, strict bool) execOut {
 		}
 		timeouts := cfg.Timeouts
 		frozenAt := -1
+		abortsSeen := make([]int32, len(w.ths))
 		for {
 			s.Settle()
 			if s.Steps > maxSteps {
@@ -333,7 +356,16 @@ func execute(t *testing.T, cfg Config, c bubble.Chooser, strict bool) execOut {
 					frozenAt = s.Steps
 				}
 			}
-			m, ok := s.Pick(ch, bubble.PickOpt{PreemptCosts: cfg.Bound >= 0, OfferTime: timeouts > 0})
+			// a thread whose attempt aborted during its last step has given up its turn: the default schedule
+			// goes on with another thread (otherwise a try-lock waiter would spin while the holder never runs)
+			yielded := false
+			for i, th := range w.ths {
+				if n := w.abortsBy[i].Load(); th == s.Last() && n != abortsSeen[i] {
+					yielded = true
+				}
+				abortsSeen[i] = w.abortsBy[i].Load()
+			}
+			m, ok := s.Pick(ch, bubble.PickOpt{PreemptCosts: cfg.Bound >= 0, OfferTime: timeouts > 0, LastYielded: yielded})
 			if !ok {
 				break
 			}
